@@ -14,7 +14,7 @@ SPEC = {
     ],
     "classes": {1: "script-string-html-escaped", 2: "headers-and-ws-params-missing-comma",
                 3: "script-string-backslash-or-line-terminator"},
-    "n_quick": 120, "n_thorough": 2500,
+    "n_quick": 120, "n_thorough": 480,
     "level": "proof",
     "what_violation": "a configured string does not reach the GraphiQL script/title verbatim, or ends its context",
     "rule": ("configurations built with GraphiQLSource::build()...finish(): the three configurations of the repository's tests, the "
